@@ -51,44 +51,71 @@ theorem mem_applyRegisters (k : Key) (cmds regs : List Key) :
 
 theorem isTopic_iff (r : Ref) : isTopic r = true ↔ r.chan = "" := by simp [isTopic]
 
-theorem mem_callbackCmds (x : Key) (objs : List Ref) :
-    x ∈ callbackCmds objs ↔ ∃ T ∈ objs, T.chan = "" ∧ x.1 = T.topic ∧
-      ((x.2 = "" ∧ ∀ r ∈ objs, r.chan ≠ "" → r.topic ≠ T.topic) ∨
-       (∃ r ∈ objs, r.chan ≠ "" ∧ r.topic = T.topic ∧ x.2 = r.chan)) := by
+/-- a topic of that name is in the map and not exiting -/
+def TopicLive (objs dead : List Ref) (t : String) : Prop :=
+  ∃ T ∈ objs, T.chan = "" ∧ T.topic = t ∧ T ∉ dead
+
+/-- an object of that name is in the maps and not exiting (for a channel: in a topic that is) -/
+def NameLive (objs dead : List Ref) (k : Key) : Prop :=
+  TopicLive objs dead k.1 ∧ (k.2 = "" ∨ ∃ r ∈ objs, r.topic = k.1 ∧ r.chan = k.2 ∧ r ∉ dead)
+
+theorem nameLive_iff (objs dead : List Ref) (t c : String) :
+    nameLive objs dead t c = true ↔ NameLive objs dead (t, c) := by
+  simp only [nameLive, NameLive, TopicLive, Bool.and_eq_true, List.any_eq_true, Bool.or_eq_true, beq_iff_eq,
+    Bool.not_eq_true', isTopic]
+  constructor
+  · rintro ⟨⟨T, hT, ⟨h1, h2⟩, h3⟩, h⟩
+    refine ⟨⟨T, hT, h1, h2, by simpa using h3⟩, ?_⟩
+    rcases h with h | ⟨r, hr, ⟨h4, h5⟩, h6⟩
+    · exact Or.inl h
+    · exact Or.inr ⟨r, hr, h4, h5, by simpa using h6⟩
+  · rintro ⟨⟨T, hT, h1, h2, h3⟩, h⟩
+    refine ⟨⟨T, hT, ⟨h1, h2⟩, by simpa using h3⟩, ?_⟩
+    rcases h with h | ⟨r, hr, h4, h5, h6⟩
+    · exact Or.inl h
+    · exact Or.inr ⟨r, hr, ⟨h4, h5⟩, by simpa using h6⟩
+
+theorem mem_callbackCmds (x : Key) (objs dead : List Ref) :
+    x ∈ callbackCmds objs dead ↔ ∃ T ∈ objs, T.chan = "" ∧ T ∉ dead ∧ x.1 = T.topic ∧
+      ((x.2 = "" ∧ ∀ r ∈ objs, r.chan ≠ "" → r.topic = T.topic → r ∈ dead) ∨
+       (∃ r ∈ objs, r.chan ≠ "" ∧ r.topic = T.topic ∧ r ∉ dead ∧ x.2 = r.chan)) := by
   unfold callbackCmds
-  simp only [List.mem_flatMap, List.mem_filter, isTopic_iff]
+  simp only [List.mem_flatMap, List.mem_filter]
   constructor
   · rintro ⟨T, ⟨hT, hc⟩, hx⟩
-    refine ⟨T, hT, hc, ?_⟩
+    simp [isTopic] at hc
+    refine ⟨T, hT, hc.1, hc.2, ?_⟩
     split at hx
     · rename_i hemp
       simp at hx
       subst hx
       refine ⟨rfl, Or.inl ⟨rfl, ?_⟩⟩
       intro r hr hne heq
-      have : r ∈ objs.filter (fun r => !isTopic r && r.topic == T.topic) := by
-        simp [List.mem_filter, hr, isTopic, hne, heq]
+      apply Classical.byContradiction
+      intro hnd
+      have : r ∈ objs.filter (fun r => !isTopic r && r.topic == T.topic && !dead.contains r) := by
+        simp [List.mem_filter, hr, isTopic, hne, heq, hnd]
       rw [List.isEmpty_iff] at hemp
       rw [hemp] at this
       simp at this
     · simp only [List.mem_map, List.mem_filter] at hx
       obtain ⟨r, ⟨hr, hcond⟩, rfl⟩ := hx
       simp [isTopic] at hcond
-      exact ⟨rfl, Or.inr ⟨r, hr, hcond.1, hcond.2, rfl⟩⟩
-  · rintro ⟨T, hT, hc, hx1, hx⟩
-    refine ⟨T, ⟨hT, hc⟩, ?_⟩
-    rcases hx with ⟨hx2, hno⟩ | ⟨r, hr, hrc, hrt, hx2⟩
-    · have hemp : (objs.filter (fun r => !isTopic r && r.topic == T.topic)).isEmpty = true := by
+      exact ⟨rfl, Or.inr ⟨r, hr, hcond.1.1, hcond.1.2, hcond.2, rfl⟩⟩
+  · rintro ⟨T, hT, hc, hd, hx1, hx⟩
+    refine ⟨T, ⟨hT, by simp [isTopic, hc, hd]⟩, ?_⟩
+    rcases hx with ⟨hx2, hno⟩ | ⟨r, hr, hrc, hrt, hrd, hx2⟩
+    · have hemp : (objs.filter (fun r => !isTopic r && r.topic == T.topic && !dead.contains r)).isEmpty = true := by
         simp [List.isEmpty_iff, List.filter_eq_nil_iff, isTopic]
-        intro r hr hne
-        exact hno r hr hne
+        intro r hr hne heq
+        exact hno r hr hne heq
       simp only [hemp, if_true]
       simp
       exact Prod.ext hx1 hx2
-    · have hmem : r ∈ objs.filter (fun r => !isTopic r && r.topic == T.topic) := by
-        simp [List.mem_filter, hr, isTopic, hrc, hrt]
-      have hne : (objs.filter (fun r => !isTopic r && r.topic == T.topic)).isEmpty = false := by
-        cases h : (objs.filter (fun r => !isTopic r && r.topic == T.topic)) with
+    · have hmem : r ∈ objs.filter (fun r => !isTopic r && r.topic == T.topic && !dead.contains r) := by
+        simp [List.mem_filter, hr, isTopic, hrc, hrt, hrd]
+      have hne : (objs.filter (fun r => !isTopic r && r.topic == T.topic && !dead.contains r)).isEmpty = false := by
+        cases h : (objs.filter (fun r => !isTopic r && r.topic == T.topic && !dead.contains r)) with
         | nil => rw [h] at hmem; simp at hmem
         | cons a b => simp
       rw [hne]
@@ -100,40 +127,46 @@ theorem mem_callbackCmds (x : Key) (objs : List Ref) :
 def ChanHasTopic (objs : List Ref) : Prop :=
   ∀ r ∈ objs, r.chan ≠ "" → ∃ T ∈ objs, T.chan = "" ∧ T.topic = r.topic
 
-/-- `connectCallback` registers exactly the objects in the maps (as a set of keys). -/
-theorem mem_callbackRegs (objs : List Ref) (hs : ChanHasTopic objs) (k : Key) :
-    k ∈ callbackRegs objs ↔ ∃ r ∈ objs, r.key = k := by
+/-- `connectCallback` registers exactly the names that are live (as a set of keys): exiting topics (with all their
+channels) and exiting channels are skipped. -/
+theorem mem_callbackRegs (objs dead : List Ref) (k : Key) :
+    k ∈ callbackRegs objs dead ↔ NameLive objs dead k := by
   unfold callbackRegs
   rw [mem_applyRegisters]
   simp only [List.not_mem_nil, false_or]
   constructor
   · rintro ⟨x, hx, hk⟩
     rw [mem_callbackCmds] at hx
-    obtain ⟨T, hT, hTc, hx1, hx2⟩ := hx
+    obtain ⟨T, hT, hTc, hTd, hx1, hx2⟩ := hx
+    have htl : TopicLive objs dead x.1 := ⟨T, hT, hTc, hx1.symm, hTd⟩
     rcases hk with rfl | rfl
-    · rcases hx2 with ⟨h2, _⟩ | ⟨r, hr, _, hrt, h2⟩
-      · exact ⟨T, hT, by simp [Ref.key, hTc, ← hx1, ← h2]⟩
-      · exact ⟨r, hr, by simp [Ref.key, hrt, ← hx1, ← h2]⟩
-    · exact ⟨T, hT, by simp [Ref.key, hTc, hx1]⟩
-  · rintro ⟨r, hr, rfl⟩
-    by_cases hc : r.chan = ""
-    · by_cases hno : ∀ x ∈ objs, x.chan ≠ "" → x.topic ≠ r.topic
-      · refine ⟨(r.topic, ""), ?_, Or.inl (by simp [Ref.key, hc])⟩
+    · refine ⟨htl, ?_⟩
+      rcases hx2 with ⟨h2, _⟩ | ⟨r, hr, _, hrt, hrd, h2⟩
+      · exact Or.inl h2
+      · exact Or.inr ⟨r, hr, by rw [hrt, hx1], h2.symm, hrd⟩
+    · exact ⟨htl, Or.inl rfl⟩
+  · rintro ⟨⟨T, hT, hTc, hTt, hTd⟩, hch⟩
+    by_cases hc : k.2 = ""
+    · by_cases hno : ∀ r ∈ objs, r.chan ≠ "" → r.topic = T.topic → r ∈ dead
+      · refine ⟨(T.topic, ""), ?_, Or.inl (Prod.ext hTt.symm hc)⟩
         rw [mem_callbackCmds]
-        exact ⟨r, hr, hc, rfl, Or.inl ⟨rfl, hno⟩⟩
-      · have hno' : ∃ x, x ∈ objs ∧ x.chan ≠ "" ∧ x.topic = r.topic := by
+        exact ⟨T, hT, hTc, hTd, rfl, Or.inl ⟨rfl, hno⟩⟩
+      · have hno' : ∃ r, r ∈ objs ∧ r.chan ≠ "" ∧ r.topic = T.topic ∧ r ∉ dead := by
           apply Classical.byContradiction
           intro hcon
           apply hno
-          intro x hx hxc hxt
-          exact hcon ⟨x, hx, hxc, hxt⟩
-        obtain ⟨x, hx, hxc, hxt⟩ := hno'
-        refine ⟨(r.topic, x.chan), ?_, Or.inr (by simp [Ref.key, hc])⟩
+          intro r hr hrc hrt
+          apply Classical.byContradiction
+          intro hrd
+          exact hcon ⟨r, hr, hrc, hrt, hrd⟩
+        obtain ⟨r, hr, hrc, hrt, hrd⟩ := hno'
+        refine ⟨(T.topic, r.chan), ?_, Or.inr (Prod.ext hTt.symm hc)⟩
         rw [mem_callbackCmds]
-        exact ⟨r, hr, hc, rfl, Or.inr ⟨x, hx, hxc, hxt, rfl⟩⟩
-    · obtain ⟨T, hT, hTc, hTt⟩ := hs r hr hc
-      refine ⟨(T.topic, r.chan), ?_, Or.inl (by simp [Ref.key, hTt])⟩
-      rw [mem_callbackCmds]
-      exact ⟨T, hT, hTc, rfl, Or.inr ⟨r, hr, hc, hTt.symm, rfl⟩⟩
+        exact ⟨T, hT, hTc, hTd, rfl, Or.inr ⟨r, hr, hrc, hrt, hrd, rfl⟩⟩
+    · rcases hch with h | ⟨r, hr, hrt, hrc, hrd⟩
+      · exact absurd h hc
+      · refine ⟨(T.topic, r.chan), ?_, Or.inl (Prod.ext hTt.symm hrc.symm)⟩
+        rw [mem_callbackCmds]
+        exact ⟨T, hT, hTc, hTd, rfl, Or.inr ⟨r, hr, by rw [hrc]; exact hc, by rw [hrt, hTt], hrd, rfl⟩⟩
 
 end Nsq.Proofs.LookupSync
